@@ -190,3 +190,22 @@ def install_serdes_bounds():
         wrap(cls, "uint")
         wrap(cls, "uint_lit")
     _serdes_bounded = True
+
+
+def verify_fixtures(prop):
+    """Every committed fixture must still get its recorded verdict from the plain decoder and still round-trip through the
+    plain (de)serialiser.  Returns violation dicts for the runner (a changed verdict is a property violation in itself)."""
+    import io as _io
+    from lib.levels import relax_levels
+
+    relax_levels()
+    out = []
+    for name, meta in sorted(fixture_index().items()):
+        data, _ = fixture(name)
+        cls, st, exc = run_decoder(_io.BytesIO(data))
+        got = "ok" if cls[0] == "ok" else cls[1]
+        if got != meta["expect"]:
+            out.append({"label": "fixture-verdict-changed", "key": "%s:fixture:%s:%s" % (prop, name, got),
+                        "detail": "fixture %s (%s) is recorded as %s but the plain decoder now gives %r" % (name, meta["description"], meta["expect"], cls),
+                        "inputs": {"fixture": name}})
+    return out
